@@ -296,3 +296,49 @@ HARNESSES += [
     _h("c08_directive_name", h_directive_name, "string literals of the MIR of the withdrawal lowering (tx3-lang) vs. compile_withdrawals / compile_withdrawal_redeemers (tx3-cardano)", crates=["tx3-cardano", "tx3-tir"]),
     _h("c08_multi_utxo", h_multi_utxo, "1 script input bound to 2 UTxOs; txid byte symbolic; hash-set iteration order: all", map_order="all"),
 ]
+
+
+# ---- a policy whose mint and burn cancel ------------------------------------------------------
+
+def h_mint_cancelled(ctx, tier, seed):
+    """policy P: mint x + burn x of one asset (the policy leaves the body), with a redeemer on the
+    mint and/or the burn block; policy Q (symbolic byte: sorts before or after P) minted with or
+    without a redeemer.  Either compilation refuses, or every Mint redeemer sits at the index of a
+    policy that is in the body's mint field and carries that policy's own data."""
+    eng = ctx.eng; T = TIR(eng)
+    q = ctx.sym_int("other_policy_byte", "u8")
+    eng.assume(q != 0x50)
+    red_where = eng.choose(3, "redeemer of the cancelled policy on mint / burn / both")
+    q_red = eng.choose(2, "the other policy has its own redeemer") == 1
+    x = 5
+    P = [0x50] * 28
+    mints = [mint_block(T, P, x, T.num(300) if red_where in (0, 2) else T.none()),
+             mint_block(T, policy(q), 9, T.num(400) if q_red else T.none())]
+    burns = [mint_block(T, P, x, T.num(301) if red_where in (1, 2) else T.none())]
+    tx = mk_tx(T, mints=mints, burns=burns)
+    try:
+        body = models.deref(eng.call_fn(eng.find(short="compile_tx_body"), [ref_to_value(tx), network(eng)]))
+        if body.variant != "Ok":
+            ctx.require(True, "refused")
+            return
+        red = models.deref(eng.call_fn(eng.find(short="compile_redeemers"), [ref_to_value(tx), ref_to_value(body.fields[0]), network(eng)]))
+    except Panic as p:
+        eng.stats.panic_paths += 1
+        ctx.violation("redeemer compilation panicked: %s" % p.kind, site=p.site)
+        return
+    if red.variant != "Ok":
+        ctx.require(True, "a redeemer on a policy that is not minted on balance is refused")
+        return
+    got = redeemer_map(ctx, red) or []
+    # the body's mint field holds Q only: index 0 is Q
+    for t, i, d in got:
+        if t != "Mint":
+            continue
+        dv = data_int(eng, d)
+        ctx.require(dv is not None and z3.And(eng.to_bv(i, 32) == 0, eng.to_bv(dv, 128) == 400) if q_red else False,
+                    "a Mint redeemer points at a policy present in the body and carries that policy's data", shape="redeemer of a cancelled policy attached to another policy")
+    if q_red:
+        ctx.require(any(t == "Mint" for t, _, _ in got), "the redeemer of the policy that is minted is emitted", shape="mint redeemer lost or duplicated")
+
+
+HARNESSES.append(_h("c08_mint_cancelled", h_mint_cancelled, "policy P mint 5 / burn 5 with redeemers on mint, burn or both; policy Q (byte symbolic) minted with / without redeemer"))
